@@ -138,6 +138,7 @@ func runC13(c *Ctx, r *Report) {
 	c13r8(c, r)
 	c13r9(c, r)
 	c13r10(c, r)
+	c08r19(c, r) // the published result is the filter of the snapshot it is published for, also right after a reload
 	c04r14(c, r) // a search over a --tail snapshot never returns the unused slot of the partial first chunk
 	c08r13(c, r) // a result published for a snapshot is computed for that snapshot's revision
 	c01r3(c, r)  // a cached list narrower than the query's true result is a wrong result of the search
